@@ -224,7 +224,11 @@ class Origins:
             outs = []
             for d in ds:
                 o = self._def(d, rest, depth, stack)
+                if o == ("unknown", "infeasible"):
+                    continue
                 outs.append(o)
+            if not outs:
+                return ("unknown", "infeasible")
             if any(_has_cycle(o) for o in outs) or len(outs) > 6:
                 return self._var(local, rest)
             uniq = []
@@ -280,6 +284,9 @@ class Origins:
         if r == "aggregate":
             k = rv["kind"]
             rr = list(rest)
+            # a downcast to another variant than the one constructed cannot be taken on this definition
+            if rr and rr[0][0] == "d" and k.get("variant") is not None and k["a"] == "adt" and rr[0][1] != k.get("variant"):
+                return ("unknown", "infeasible")
             # skip a downcast to the constructed variant
             if rr and rr[0][0] == "d" and (k.get("variant") is None or rr[0][1] == k.get("variant")):
                 rr = rr[1:]
@@ -309,6 +316,9 @@ class Origins:
         if f["o"] == "const" and "fn" in f["c"]:
             gen = f["c"]["fn"]
             res = f["c"].get("resolved") or gen
+        if gen == "std::ops::FromResidual::from_residual" and rest and rest[0][0] == "d" and rest[0][1] in UNWRAP_VARIANTS:
+            # `?` early exit: the value built from a residual is never the success variant
+            return ("unknown", "infeasible")
         if gen in TRANSPARENT_GENERIC and t["args"]:
             a = t["args"][0]
             rem = self._unwrap_rest(rest)
